@@ -2038,3 +2038,21 @@ R("undelegate-mature-height-helper", ["C12"],
 """, """	now := ctx.Header.GetHeight()
 	matureHeight := now + delegationOptions.RewardsMaturityTime
 """))
+M("stake-record-error-only-logged", "C02", "C02.errcheck",
+  ("action/staking/stake.go", """	err = ctx.Delegators.Stake(st.ValidatorAddress, st.StakeAddress, st.Stake.Value)
+	if err != nil {
+		return false, action.Response{Log: errors.Wrap(err, st.StakeAddress.String()).Error()}
+	}
+""", """	err = ctx.Delegators.Stake(st.ValidatorAddress, st.StakeAddress, st.Stake.Value)
+	if err != nil {
+		ctx.Logger.Error(errors.Wrap(err, st.StakeAddress.String()).Error())
+	}
+"""))
+M("domain-create-pool-credit-error-dropped", "C02", "C02.errcheck",
+  ("action/ons/create.go", """	err = ctx.FeePool.AddToPool(price)
+	if err != nil {
+		return false, action.Response{
+			Log: codes.ErrAddingToFeePool.Wrap(err).Marshal(),
+		}
+	}""", """	_ = ctx.FeePool.AddToPool(price)
+	_ = codes.ErrAddingToFeePool"""))
